@@ -166,7 +166,7 @@ CUT_NOTE = ("parser harnesses: paths end where the first anyhow! error value is 
             "such paths in the four parsers is only Err propagation (read); allocation-policy stubs for the Vec<char> collections")
 C16_COMMON = ([{"h": "c16_" + n, "unwind": 8, "stubs": "alloc+anyhow-cut", "mode": "full"} for n in ["square_parse", "piece_parse", "dir_parse"]] +
               [{"h": "c16_" + n, "unwind": 8, "stubs": "none", "mode": "full"} for n in
-               ["square_conv", "print_square", "print_piece_dir", "print_action_move", "print_action_pass", "print_action_place"]])
+               ["square_conv", "print_square", "print_piece_dir", "print_action_move_d0", "print_action_move_d1", "print_action_move_d2", "print_action_move_d3", "print_action_pass", "print_action_place"]])
 PLAN["C16"] = {
     "quick": C16_COMMON + [{"h": "c16_action_parse_len%d" % l, "unwind": 8, "stubs": "alloc+anyhow-cut", "mode": "full"} for l in (0, 1, 2, 3)],
     "thorough": C16_COMMON + [{"h": "c16_action_parse_len%d" % l, "unwind": 8, "stubs": "alloc+anyhow-cut", "mode": "full"} for l in (0, 1, 2, 3, 4)],
@@ -177,17 +177,21 @@ PLAN["C16"] = {
     "stubs": CUT_NOTE,
     "assumptions": [],
 }
+def c20(n):
+    return {"h": "c20_list_n%d" % n, "unwind": "3 (recursion) / %d (loops)" % (n + 2), "stubs": "none", "loops_unwind": n + 2,
+            "recursion_is_violation": True, "mode": "func"}
+
+
 PLAN["C20"] = {
-    "quick": [{"h": "c20_list_n12", "unwind": 3, "stubs": "none", "loops_unwind": 14, "recursion_is_violation": True, "mode": "full"},
-              {"h": "c20_state", "unwind": 3, "stubs": "alloc", "loops_unwind": 9, "recursion_is_violation": True}],
-    "thorough": [{"h": "c20_list_n12", "unwind": 3, "stubs": "none", "loops_unwind": 14, "recursion_is_violation": True, "mode": "full"},
-                 {"h": "c20_list_n32", "unwind": 3, "stubs": "none", "loops_unwind": 34, "recursion_is_violation": True, "mode": "full"},
-                 {"h": "c20_state", "unwind": 3, "stubs": "alloc", "loops_unwind": 9, "recursion_is_violation": True}],
-    "bounds": ("history lists of symbolic length n <= N (12 quick, 32 thorough; 6 at game-state level): build, clone, count occurrences, "
-               "end a turn, drop - with recursion depth limited to 3 and CBMC's recursion unwinding assertions on"),
-    "outside": ("lengths above N are covered by the argument that a recursion bound independent of n <= N cannot depend on n; the native run at "
+    "quick": [c20(1), c20(2), c20(12),
+              {"h": "c20_state", "unwind": "3 (recursion) / 9 (loops)", "stubs": "alloc", "loops_unwind": 9, "recursion_is_violation": True}],
+    "thorough": [c20(1), c20(2), c20(12), c20(32),
+                 {"h": "c20_state", "unwind": "3 (recursion) / 9 (loops)", "stubs": "alloc", "loops_unwind": 9, "recursion_is_violation": True}],
+    "bounds": ("history lists of length 1, 2, 12 (and 32 thorough) with arbitrary contents, 2 at game-state level: build, clone, count occurrences "
+               "(the engine's repetition scan), end a turn, drop - with recursion depth limited to 3 and CBMC's recursion unwinding assertions on"),
+    "outside": ("other lengths: a recursion bound that holds for 1, 2, 12 and 32 nodes and is independent of the contents cannot depend on the length; the native run at "
                 "300 000 turns on a 2 MiB thread is corroboration only; Debug-formatting a state is recursive and not part of the claim"),
-    "stubs": "none for the list harness; allocation-policy stubs for the state harness",
+    "stubs": "none for the list harnesses; allocation-policy stubs for the state harness",
     "assumptions": [],
 }
 SYMQ = [(0, "none"), (1, "pull"), (2, "push")]
@@ -224,11 +228,11 @@ def hs(names, **kw):
 
 
 PLAN["C08"] = {
-    "quick": inst("c08_step", [(0, "none"), (3, "pull")], stubs="alloc+indicator+upto3") + hs(["c08_pass_s1_pull", "c08_place", "c08_views_s1_pull", "mbts_contract_k4"], unwind=8, stubs="alloc") +
-             hs(["c08_from_scratch_k3"], unwind=8, stubs="alloc+indicator+upto3"),
-    "thorough": inst("c08_step", stubs="alloc+indicator+upto3", cap=5400) + hs(["c08_pass_s%d_%s" % (a, b) for a, b in PASS6] + ["c08_place"] +
+    "quick": inst("c08_step", [(0, "none"), (3, "pull")], stubs="alloc+absmove-or-indicator") + hs(["c08_pass_s1_pull", "c08_place", "c08_views_s1_pull", "mbts_contract_k4"], unwind=8, stubs="alloc") +
+             hs(["c08_from_scratch_k3"], unwind=8, stubs="alloc+absmove-or-indicator"),
+    "thorough": inst("c08_step", stubs="alloc+absmove-or-indicator", cap=5400) + hs(["c08_pass_s%d_%s" % (a, b) for a, b in PASS6] + ["c08_place"] +
                      ["c08_views_s0_none", "c08_views_s1_pull", "c08_views_s2_push", "c08_views_s3_none"], unwind=8, stubs="alloc") +
-                hs(["c08_from_scratch_k3", "c08_from_scratch_k6"], unwind=8, stubs="alloc+indicator+upto3", cap=7200),
+                hs(["c08_from_scratch_k3", "c08_from_scratch_k6"], unwind=8, stubs="alloc+absmove-or-indicator", cap=7200),
     "bounds": ("step lemma: all boards without unsupported trap piece, both sides, symbolic legal step, symbolic pre-hash, history <= 4 arbitrary entries, "
                "symbolic target triple; pass and placement: all states; from-scratch function: boards with <= KP pieces (3 quick, 6 thorough); real map_bit_board_to_squares, unwind 8"),
     "outside": "from-scratch hash of boards with more than KP pieces (the parser's path); boards with an unsupported trap piece in the step lemma (diff masks up to 6 bits still fit unwind 8, but B3 is assumed)",
@@ -238,13 +242,13 @@ PLAN["C08"] = {
 PLAN["C05"] = {
     "quick": hs(["c05_can_pass_s1_pull", "c05_can_pass_s3_none"], unwind=8, stubs="alloc") +
              hs(["c05_passing_like_s3_none"], unwind=8, stubs="alloc+absmove") +
-             inst("c08_step", [(3, "none")], stubs="alloc+indicator+upto3") + hs(["c08_pass_s2_none", "c08_place"], unwind=8, stubs="alloc"),
+             inst("c08_step", [(3, "none")], stubs="alloc+absmove-or-indicator") + hs(["c08_pass_s2_none", "c08_place"], unwind=8, stubs="alloc"),
     "thorough": hs(["c05_can_pass_s%d_%s" % (a, b) for a, b in INST] + ["c08_place"], unwind=8, stubs="alloc") +
                 hs(["c05_passing_like_s3_%s" % k for k in ("none", "pull", "push")], unwind=8, stubs="alloc+absmove") +
-                inst("c08_step", [(3, "none"), (3, "pull"), (3, "push")], stubs="alloc+indicator+upto3", cap=5400) +
+                inst("c08_step", [(3, "none"), (3, "pull"), (3, "push")], stubs="alloc+absmove-or-indicator", cap=5400) +
                 hs(["c08_pass_s%d_%s" % (a, b) for a, b in PASS6], unwind=8, stubs="alloc") +
-                hs(["c06_whole1_s3_%s" % k for k in ("none", "pull", "push")], unwind=8, stubs="alloc+indicator+upto3") +
-                hs(["c06_whole2_s3_%s" % k for k in ("none", "pull", "push")], unwind=10, stubs="alloc+indicator+upto3", cap=5400),
+                hs(["c06_whole1_s3_%s" % k for k in ("none", "pull", "push")], unwind=8, stubs="alloc+absmove-or-indicator") +
+                hs(["c06_whole2_s3_%s" % k for k in ("none", "pull", "push")], unwind=10, stubs="alloc+absmove-or-indicator", cap=5400),
     "bounds": "all boards; hashes, turn-initial hash and up to 6 history entries are arbitrary 64-bit values; whole-function runs on boards with <= 2 pieces",
     "outside": "history lists longer than 6 entries (the count is a fold over the list); C05.4 (discarding history at captures is harmless) is a written monotonicity argument over C02/C08 invariants; the no-collision assumption",
     "stubs": ALLOC_STUBS + "; " + ABS_NOTE + "; " + IND_NOTE,
@@ -252,11 +256,11 @@ PLAN["C05"] = {
 }
 PLAN["C06"] = {
     "quick": hs(["c06_remove_s3_none", "c06_remove_s2_pull"], unwind=8, stubs="alloc+absmove") +
-             hs(["c06_whole1_s3_none", "c06_whole1_s3_push"], unwind=8, stubs="alloc+indicator+upto3") +
+             hs(["c06_whole1_s3_none"], unwind=8, stubs="alloc+absmove") +
              hs(["c05_passing_like_s3_pull"], unwind=8, stubs="alloc+absmove"),
     "thorough": hs(["c06_remove_s3_none", "c06_remove_s3_pull", "c06_remove_s3_push", "c06_remove_s2_pull", "c06_remove_s1_none"], unwind=8, stubs="alloc+absmove", cap=5400) +
-                hs(["c06_whole1_s3_none", "c06_whole1_s3_pull", "c06_whole1_s3_push"], unwind=8, stubs="alloc+indicator+upto3") +
-                inst("c06_whole2", unwind=10, stubs="alloc+indicator+upto3", cap=5400) + inst("c06_whole3", [(3, "none"), (3, "pull"), (3, "push")], unwind=14, stubs="alloc+indicator+upto3", cap=7200) +
+                hs(["c06_whole1_s3_none", "c06_whole1_s3_pull", "c06_whole1_s3_push"], unwind=8, stubs="alloc+absmove", cap=5400) +
+                inst("c06_whole2", unwind=10, stubs="alloc+absmove-or-indicator", cap=5400) + inst("c06_whole3", [(3, "none"), (3, "pull"), (3, "push")], unwind=14, stubs="alloc+indicator+upto3", cap=7200) +
                 hs(["c05_passing_like_s3_%s" % k for k in ("none", "pull", "push")], unwind=8, stubs="alloc+absmove"),
     "bounds": "private filter: all boards, arbitrary 2-entry lists (steps or pass), history of 6 arbitrary entries; whole functions: boards with <= 1 piece (quick) / <= 2, <= 3 at step 3 (thorough), history of 4 arbitrary entries",
     "outside": "whole-function list relation on boards with more pieces (the filter is applied entry-wise by Vec::retain; decided on arbitrary lists through the hook)",
@@ -265,17 +269,18 @@ PLAN["C06"] = {
 }
 PN = ["term", "hasmove", "canpass"]
 PLAN["C07"] = {
-    "quick": hs(["c07_summary_term_s0_none", "c07_summary_term_s2_pull", "c07_summary_hasmove_s1_push", "c07_summary_canpass_s1_none"], unwind=16, stubs="alloc+lowest") +
+    "quick": hs(["c07_summary_term_s0_none", "c07_summary_term_s2_none", "c07_summary_hasmove_s1_push", "c07_summary_canpass_s1_none"], unwind=16, stubs="alloc+lowest") +
              hs(["c07_has_non_passing_s3_none"], unwind=8, stubs="alloc+absmove") +
-             hs(["c07_small1_term_s3_none", "c07_small1_hasmove_s3_pull"], unwind=8, stubs="alloc+indicator+upto3") + hs(["c09_offered"], unwind=8, stubs="alloc"),
-    "thorough": hs(["c07_summary_%s_s%d_%s" % (pn, a, b) for pn in PN for a, b in INST], unwind=16, stubs="alloc+lowest") +
+             hs(["c07_summary_term_s3_push"], unwind=16, stubs="alloc+lowest") + hs(["c09_offered"], unwind=8, stubs="alloc"),
+    "thorough": hs(["c07_summary_%s_s%d_%s" % (pn, a, b) for pn in PN for a, b in INST], unwind=16, stubs="alloc+lowest", cap=5400) +
                 hs(["c07_has_non_passing_s3_none", "c07_has_non_passing_s3_pull", "c07_has_non_passing_s3_push", "c07_has_non_passing_s2_pull"], unwind=8, stubs="alloc+absmove", cap=5400) +
-                hs(["c07_small1_%s_s3_%s" % (pn, b) for pn in PN for b in ("none", "pull", "push")], unwind=8, stubs="alloc+indicator+upto3") +
-                hs(["c07_small2_%s_s%d_%s" % (pn, a, b) for pn in PN for a, b in INST], unwind=10, stubs="alloc+indicator+upto3", cap=5400) +
+
                 hs(["c05_can_pass_s%d_%s" % (a, b) for a, b in INST], unwind=8, stubs="alloc") + hs(["c09_offered"], unwind=8, stubs="alloc"),
     "bounds": ("all boards for steps 0-2 and for step 3 after a capture (lowest-bit projection); step 3 without capture: private summary on arbitrary lists of <= 2 steps "
                "(all boards) and whole functions on boards with <= 2 pieces; history <= 6 arbitrary entries; setup: every reachable setup board"),
-    "outside": "whole-function claim at step 3 without a capture on boards with more than 2 pieces",
+    "outside": ("whole-function relations at step 3 WITHOUT a capture this turn (there the 4th-step filter is hash-dependent): decided only at the level of the private "
+                "summary on arbitrary lists (c07_has_non_passing) and of the list relation on 1-piece boards (C06 c06_whole1); the projected+abstract whole-function "
+                "harness for this case ran out of memory (24 GB) and is not part of the check"),
     "stubs": ALLOC_STUBS + "; " + LOWEST_NOTE + "; " + ABS_NOTE + "; " + IND_NOTE,
     "assumptions": [INV_RULES],
 }
@@ -285,19 +290,25 @@ def c19(insts, parts, **kw):
         for pn in parts:
             if pn == "pass" and (st == 0 or k == "push"):
                 continue
-            out.append(dict({"h": "c19_%s_s%d_%s" % (pn, st, k), "unwind": 12, "stubs": "alloc+focus", "mode": "full"}, **kw))
+            d = {"h": "c19_%s_s%d_%s" % (pn, st, k), "unwind": 12, "stubs": "alloc+focus", "mode": "func"}
+            if pn in ("apply", "pass"):
+                d.update({"loops_unwind": 12, "unwind": "2 (recursion) / 12 (loops)", "cap": 1500})
+            out.append(dict(d, **kw))
     return out
 
 
 PLAN["C19"] = {
-    "quick": c19([(0, "none"), (2, "push"), (3, "pull")], ["lists", "queries"]) + c19([(1, "pull"), (3, "none")], ["apply", "pass"]) +
-             hs(["c19_setup_queries", "c19_setup_place"], unwind=8, stubs="alloc", mode="full") + hs(["c19_mbts_k4"], unwind=6, stubs="alloc", mode="full"),
+    "quick": c19([(0, "none"), (2, "push")], ["lists", "queries"]) + c19([(3, "pull")], ["lists"]) +
+             c19([(1, "pull"), (3, "none")], ["apply", "pass"]) +
+             hs(["c19_setup_queries", "c19_setup_place"], unwind=8, stubs="alloc", mode="func") + hs(["c19_mbts_k4"], unwind=6, stubs="alloc", mode="full"),
     "thorough": c19(INST, ["lists", "queries", "apply", "pass"], cap=5400) +
-                hs(["c19_setup_queries", "c19_setup_place"], unwind=8, stubs="alloc", mode="full") + hs(["c19_mbts_k4"], unwind=6, stubs="alloc", mode="full") +
+                hs(["c19_setup_queries", "c19_setup_place"], unwind=8, stubs="alloc", mode="func") + hs(["c19_mbts_k4"], unwind=6, stubs="alloc", mode="full") +
                 hs(["c19_mbts_k12"], unwind=14, stubs="alloc", mode="full"),
     "bounds": ("every invariant-satisfying play state (all boards, symbolic pending, history <= 6, move number < usize::MAX) and every setup board; "
                "queries: valid_actions(_no_rep), is_terminal, has_move, can_pass, transposition_hash, piece_board_for_step(j <= step), accessors, "
-               "trapped_animal_for_action and take_action for an arbitrary legal step / pass / offered placement; all Kani checks on"),
+               "trapped_animal_for_action and take_action for an arbitrary OFFERED action (entry k of the engine's list) / pass / offered placement; "
+               "every Rust panic (explicit, unwrap/expect, index bounds, arithmetic and shift overflow with overflow-checks on) is an assertion; "
+               "CBMC's pointer-level instrumentation off except for the map_bit_board_to_squares harness; history of 2 arbitrary entries"),
     "outside": ("the printed form (Display through core::fmt did not finish within the cap even on a concrete state); piece_board_for_step/current_step during setup "
                 "(they panic by design: there is no turn); move_number == usize::MAX; map_bit_board_to_squares on masks with more than 12 bits"),
     "stubs": ALLOC_STUBS + "; " + PROJ_NOTE,
@@ -329,3 +340,10 @@ for _p in PLAN:
         for _j in PLAN[_p][_t]:
             if _j["h"].startswith("c08_from_scratch"):
                 _j["stubs"] = "alloc+indicator (real map_bit_board_to_squares loop)"
+for _p in PLAN:
+    for _t in ("quick", "thorough"):
+        for _j in PLAN[_p][_t]:
+            if _j["h"].startswith("c08_step_"):
+                _j["stubs"] = "alloc+indicator+upto3"
+            if _j["h"].startswith("c06_whole") or _j["h"].startswith("c07_small"):
+                _j["stubs"] = "alloc+absmove (real map_bit_board_to_squares loop)"
